@@ -166,6 +166,7 @@ int main(int argc, char **argv) {
     variants = vv::parse_variants(A.get("variants", "signed,fvs,iso,signed_tbb,fvs_tbb,iso_tbb"));
 #endif
     uint64_t seed = (uint64_t) A.geti("seed", 0);
+    vv::wmap_kind() = (int) A.geti("wmap", 0);        // 1: exterior weight map, decoy values in the interior property
 
     if (A.has("replay-case")) {
         auto pc = vg::parse_case(A.get("replay-case"));
